@@ -369,3 +369,39 @@ pub fn reply8181(bytes: &Bytes, key: &PublicKey) -> Result<publication::Message,
     cms.validate(key).map_err(|e| bad("c12-reply", "not-signed-by-current-identity", format!("publication reply does not validate under the server's current identity key: {e}")))?;
     Ok(cms.into_message())
 }
+
+/// Seed inputs for the coverage-guided target `fuzz/fuzz_targets/signed_xml.rs`:
+/// selector byte (bit 0 sender, bit 1 publication, bit 2 wrong key, bit 3 unsigned)
+/// followed by the XML content of a message the world itself would send.
+pub fn fuzz_seeds() -> Result<Vec<Vec<u8>>, Fail> {
+    let sw = SigWorld::new(WorldCfg::default(), 0)?;
+    let mut out = Vec::new();
+    for (i, c) in CHILDREN.iter().enumerate() {
+        for pay in [
+            Pay6492::List,
+            Pay6492::Issue { key: 0, class: 0, limit: 0 },
+            Pay6492::Issue { key: 1, class: 0, limit: 1 },
+            Pay6492::Issue { key: 0, class: 2, limit: 2 },
+            Pay6492::Revoke { key: 0, class: 0 },
+            Pay6492::Revoke { key: 3, class: 1 },
+        ] {
+            let xml = sw.msg6492(c, PARENT, &pay)?.to_xml_string();
+            let mut v = vec![i as u8];
+            v.extend_from_slice(xml.as_bytes());
+            out.push(v);
+        }
+    }
+    for (i, _p) in PUBLISHERS.iter().enumerate() {
+        for pay in [
+            Pay8181::List,
+            Pay8181::Delta(vec![PubEl::Publish { owner: i as u8, name: 0, content: 1 }]),
+            Pay8181::Delta(vec![PubEl::Publish { owner: i as u8, name: 1, content: 2 }, PubEl::Update { owner: i as u8, name: 0, content: 3, right_hash: false }, PubEl::Withdraw { owner: 1 - i as u8, name: 0, right_hash: false }]),
+        ] {
+            let xml = sw.msg8181(&pay)?.to_xml_bytes();
+            let mut v = vec![2 | i as u8];
+            v.extend_from_slice(xml.as_ref());
+            out.push(v);
+        }
+    }
+    Ok(out)
+}
